@@ -5,6 +5,7 @@ import (
 	"fmt"
 	"net/http"
 	"net/http/httptest"
+	"net/url"
 	"sort"
 	"strings"
 	"testing"
@@ -82,6 +83,9 @@ func (m *c11Model) apply(o c11Op) string {
 	switch o.Kind {
 	case "add":
 		if strings.Contains(o.Addr, "%zz") || strings.Contains(o.Addr, "[::1") || o.Name == "" || o.Addr == "" {
+			return "400"
+		}
+		if u, err := url.Parse(o.Addr); err != nil || (u.Scheme != "http" && u.Scheme != "https") || u.Hostname() == "" {
 			return "400"
 		}
 		w := o.Weight
@@ -209,6 +213,10 @@ var c11Ops = []c11Op{
 	// (new operations go at the end: the concurrent scenarios refer to operations by index)
 	{Kind: "add", Name: "", Addr: "http://nn.test:80", Weight: 1}, // a backend needs a name and an address: refused, nothing changes
 	{Kind: "add", Name: "d", Addr: ""},
+	// an address without scheme, or with a scheme the proxy does not speak, names nothing a
+	// request could be sent to: refused like an unparsable one, nothing changes
+	{Kind: "add", Name: "e", Addr: "e1.test:80", Weight: 1},
+	{Kind: "add", Name: "f", Addr: "ftp://f1.test:80", Weight: 1},
 }
 
 type c11Inst struct {
